@@ -256,7 +256,7 @@ int AsmContext::assemble()
         return -1;
       }
 
-      if (symbols.append(token, address / bytes_per_address) == -1)
+      if (symbols.append(token, (uint32_t)address / bytes_per_address) == -1)
       {
         return -1;
       }
